@@ -891,21 +891,33 @@ def daemon_search(ctx: Ctx, runner: Runner) -> None:
                "only_fresh_has_lines": bool(only_fresh), "only_daemon_has_lines": bool(only_daemon)}
         if deleted_module_pattern(only_daemon, only_fresh):
             obs = {"class": "daemon-differs-from-fresh", "mode": "daemon", "detail": "deleted-module-still-known"}
+        elif not left and partially_defined_pattern(only_daemon, only_fresh):
+            obs = {"class": "daemon-differs-from-fresh", "mode": "daemon", "detail": "partially-defined-errors-lost"}
         known = ctx.match_known(obs)
         if known is not None and any(k == known["id"] for k, _ in ctx.known_hits):
             continue
         if ndiff <= 4:
+            steps_min = [{"write": s_["write"], "delete": s_["delete"]} for s_ in hists[h][:i + 1]]
+            if known is None:
+                j = i
+                while j > 0 and not (all_records[h][j] or {}).get("restarted"):
+                    j -= 1
+                steps_min = shrink_history(ctx, runner, minimal_history(hists[h], all_records[h], i) if j else steps_min, obs,
+                                           budget=ctx.pick(10, 20), fresh=fresh)
             ctx.report(obs, f"daemon answer for an unmutated probe program ({hists[h][i]['origin']}) differs from a fresh run after "
                             f"{i} edits: only daemon {only_daemon[:3]}, only fresh {only_fresh[:3]}",
-                       {"daemon_history": [{"write": s["write"], "delete": s["delete"]} for s in hists[h][:i + 1]],
+                       {"daemon_history": steps_min,
                         "daemon_out": got, "fresh_out": fresh, "daemon_status": resp.get("status"), "fresh_status": rc,
                         "left_deferred": left})
     ctx.coverage["daemon_probe_differences"] = ndiff
 
 
-def shrink_history(ctx: Ctx, runner: Runner, steps: list[dict], obs: dict, budget: int = 8) -> list[dict]:
-    """drop steps (never the last one) while the daemon still fails in the same way at the last step"""
+def shrink_history(ctx: Ctx, runner: Runner, steps: list[dict], obs: dict, budget: int = 8,
+                   fresh: list[str] | None = None) -> list[dict]:
+    """drop steps (never the last one) while the daemon still fails in the same way at the last step
+    (`fresh` given: while its answer for the last step still differs from that fresh-run output)"""
     used = [0]
+    hint = '(or run "mypy --install-types" to install all missing stub packages)'
 
     def fails(cand: list[dict]) -> bool:
         if used[0] >= budget:
@@ -915,6 +927,11 @@ def shrink_history(ctx: Ctx, runner: Runner, steps: list[dict], obs: dict, budge
         hist = [{"write": s["write"], "delete": s.get("delete", []), "probe": False, "origin": "shrink", "kinds": []} for s in cand]
         recs = run_history(ctx, runner, 700 + used[0], hist, [])
         r = recs[-1] if recs else None
+        if fresh is not None:
+            if not r or r.get("resp") is None or any(x is None or x.get("exc") for x in recs):
+                return False
+            got = [l for l in (r["resp"].get("out") or "").split("\n") if l.strip() and hint not in l]
+            return sorted(got) != sorted(fresh)
         if not r or not r.get("exc"):
             return False
         return (r["exc"][0], r["exc"][2]) == (obs.get("exc"), obs.get("frame"))
@@ -974,6 +991,12 @@ def deleted_module_pattern(only_daemon: list[str], only_fresh: list[str]) -> boo
     return bool(dm) and dm == fm
 
 
+def partially_defined_pattern(only_daemon: list[str], only_fresh: list[str]) -> bool:
+    """the daemon has no extra line; every line only the fresh run has is a used-before-def / possibly-undefined error"""
+    return not only_daemon and bool(only_fresh) and all(
+        re.search(r"error: .*\[(used-before-def|possibly-undefined)\]$", l) for l in only_fresh)
+
+
 def minimal_history(hist: list[dict], recs: list[dict], i: int) -> list[dict]:
     """the steps since the last (re)start of the server up to step i — what a replay needs"""
     j = i
@@ -1014,6 +1037,10 @@ WITNESSES = [
     ("daemon-placeholder-snapshot", "corpus/c20/daemon_placeholder_snapshot.json", [], "daemon"),
     # a function that has to be deferred twice: the daemon runs a single second pass after an edit
     ("daemon-single-second-pass", [{"main.py": "x: int = 1\n"}, {"main.py": gen.defer_chain(2)}], [], "daemon-compare"),
+    # used-before-def comes from a separate pass that is not re-run when a dependency changes
+    ("daemon-partially-defined-lost", [{"main.py": "import m\ndef f() -> None:\n    print(m.x)\n    print(y)\n    y = 1\n", "m.py": "x = 1\n"},
+                                       {"main.py": "import m\ndef f() -> None:\n    print(m.x)\n    print(y)\n    y = 1\n", "m.py": "x = ''\n"}],
+     [], "daemon-compare"),
 ]
 
 
@@ -1069,6 +1096,8 @@ def witnesses(ctx: Ctx, runner: Runner, info: dict) -> None:
                 obs = {"class": "daemon-differs-from-fresh", "mode": "daemon",
                        "left_deferred": bool((r.get("trace") or {}).get("left_deferred")),
                        "only_fresh_has_lines": bool(set(fresh) - set(got)), "only_daemon_has_lines": bool(set(got) - set(fresh))}
+                if not obs["left_deferred"] and partially_defined_pattern(sorted(set(got) - set(fresh)), sorted(set(fresh) - set(got))):
+                    obs = {"class": "daemon-differs-from-fresh", "mode": "daemon", "detail": "partially-defined-errors-lost"}
                 ctx.report(obs, f"daemon answer differs from a fresh run on the witness {wid}: only fresh {sorted(set(fresh) - set(got))[:3]}",
                            {"daemon_history": [{"write": s_["write"], "delete": s_["delete"]} for s_ in hist],
                             "daemon_out": got, "fresh_out": fresh})
